@@ -143,6 +143,11 @@ def judge(run, variant, res, stats, rerun):
     if res["rc"] is None:
         stats["inconclusive"] += 1
         return
+    if res["rc"] == 5 and not res["reports"]:
+        # the stress program could not set itself up (ports): says nothing about the library
+        stats["inconclusive"] += 1
+        stats["setup_failures"] = stats.get("setup_failures", 0) + 1
+        return
     if info:
         for k in ("request_handler", "response_handler", "nack_handler", "event_handler",
                   "ping_handler", "pong_handler", "reentry_calls", "lock_acquisitions",
@@ -260,6 +265,9 @@ def main(tier):
     run.extra["distinct_handover_pairs"] = len(pairs)
     run.nontrivial |= pairs
     run.sample({"argv": ["vf_thr", 4, 200, base, 25], "variant": "tsan"})
+    if stats["inconclusive"] * 4 > stats["runs"]:
+        raise common.Inconclusive("%d of %d stress runs were inconclusive" %
+                                  (stats["inconclusive"], stats["runs"]))
     if stats["unsupported"] == stats["runs"]:
         run.extra["vacuous"] = "coap_threadsafe_is_supported() == 0 in every variant"
     else:
